@@ -148,8 +148,9 @@ def run_walk(tid, inputs, seed):
                         if f.get("stype") == 0 and f["s"] == 5 and f["f"] == 1:
                             p = e5.plain(e5.decode_all(f["body"]))
                             obs["s5f1"].append({"a": ALN.get(p[1], f"?{p[1]}"), "b": "set" if (p[0] & 0x80) else "clear"})
-                            ep.link.feed(hsmsrun.data_frame(5, 2, False, f["system"], e5.encode(e5.B(0))))
-                            acted = True
+                            if inp.get("rsp", True):
+                                ep.link.feed(hsmsrun.data_frame(5, 2, False, f["system"], e5.encode(e5.B(0))))
+                                acted = True
                     s.settle()
                     if not acted:
                         break
